@@ -194,11 +194,16 @@ def mismatched(column: Any, value: Any) -> bool:
         python_type = column.type.python_type
     except (AttributeError, NotImplementedError):
         return False
-    if isinstance(value, bool):
+    try:
+        # the other operand may be a column as well: compare the kinds of the two columns
+        value_type = value.type.python_type
+    except (AttributeError, NotImplementedError):
+        value_type = type(value)
+    if value_type is bool:
         return False
     if python_type in (int, float):
-        return isinstance(value, str)
-    return python_type is str and isinstance(value, (int, float))
+        return value_type is str
+    return python_type is str and value_type in (int, float)
 
 
 def membership(column: Any, values: List[Any]) -> Any:
